@@ -15,6 +15,8 @@ INPUTS = {
     "clash": [{"class": 1, "user-name": "u", "list": [{"id": 1}]}],
     # object-valued keys whose class / field names are reserved in SOME framework only (a name conversion that is written back
     # into the shared registry by one framework's generator would leak into the next render)
+    # a field that is only ever null (dropped by pydantic/sqlmodel, kept by the others) and pseudo-typed strings
+    "nullonly": [{"id": "1", "deleted_at": None, "tags": ["a"], "ratio": "1.5"}, {"id": "2", "deleted_at": None, "tags": [], "ratio": "2"}],
     "reserved": [{"config": {"a": 1}, "json": {"b": "x"}, "copy": [{"c": 1.5}], "field": {"d": True}, "validate": 1, "schema": "s"}],
 }
 _REF = {}
@@ -40,12 +42,17 @@ def reference(inp, fw, layout, override):
 
 
 def render_kwargs(fw, override):
+    """override: False/None, True or "types_style", "converters", "max_literals_0" """
     from json_to_models.dynamic_typing import StringLiteral
     kw = {}
     if fw in ("attrs", "dataclasses"):
         kw["meta"] = True
-    if override:
+    if override in (True, "types_style"):
         kw["types_style"] = {StringLiteral: {StringLiteral.TypeStyle.use_literals: False}}
+    elif override == "converters":
+        kw["post_init_converters"] = True
+    elif override == "max_literals_0":
+        kw["max_literals"] = 0
     return kw
 
 
@@ -75,7 +82,7 @@ def scen_history(ch, params, out):
             inp, fw, layout, action = ch.choose(f"call{c}", [(i, f, l, a) for i in inputs for f in fws for l in ("flat", "nested")
                                                              for a in ("fresh", "rerender", "fail", "override")])
         log.append([inp, fw, layout, action])
-        override = action == "override"
+        override = ch.choose(f"override_kind{c}", params.get("override_kinds", ["types_style"])) if action == "override" else None
         try:
             if action == "rerender" and last is not None:
                 inp, reg = last
@@ -130,11 +137,15 @@ def parts(tier):
         return [CH("history3", "vflib.props.c14:scen_history", {"calls": 3, "inputs": ["simple", "shared"], "frameworks": ["pydantic", "dataclasses"]},
                    shards=16, timeout=170, path_timeout=60),
                 CH("history3_reserved_names", "vflib.props.c14:scen_history", {"calls": 3, "inputs": ["reserved"], "frameworks": ["pydantic", "dataclasses", "attrs"]},
+                   shards=16, timeout=170, path_timeout=60),
+                CH("history3_options", "vflib.props.c14:scen_history", {"calls": 3, "inputs": ["nullonly"], "frameworks": ["pydantic", "attrs", "base"],
+                                                                        "override_kinds": ["converters", "max_literals_0"]},
                    shards=16, timeout=170, path_timeout=60)]
-    return [CH("history3", "vflib.props.c14:scen_history", {"calls": 3, "inputs": ["simple", "shared", "lists", "clash", "reserved"], "frameworks": ["pydantic", "dataclasses", "attrs"]},
-               shards=16, timeout=900, path_timeout=60),
+    return [CH("history3", "vflib.props.c14:scen_history", {"calls": 3, "inputs": ["simple", "shared", "lists", "clash", "reserved", "nullonly"], "frameworks": ["pydantic", "dataclasses", "attrs", "base"],
+                "override_kinds": ["types_style", "converters", "max_literals_0"]},
+               shards=16, timeout=400, path_timeout=60),
             CH("history4", "vflib.props.c14:scen_history", {"calls": 4, "inputs": ["shared", "clash"], "frameworks": ["pydantic", "attrs"]},
-               shards=16, timeout=900, path_timeout=60)]
+               shards=16, timeout=400, path_timeout=60)]
 
 
 META = {
